@@ -19,7 +19,7 @@ ARG_CH = "0123456789ABCDEFabcdefghijklmnopqrstuvwxyz/+-._:<>@"
 ODD_ARGS = ["é中ü", "<john@example.org>", "(comment)", "-", "0", "\t", "a\tb", "[x]", "%20", "[GNUPG:]x", "=", "ü"]
 PLAIN_KW = ["SIG_ID", "ERRSIG", "NO_PUBKEY", "TRUST_UNDEFINED", "TRUST_ULTIMATE", "KEYEXPIRED", "NODATA", "ERROR",
             "PLAINTEXT", "UNEXPECTED", "IMPORT_OK", "X"]
-ARGLESS_KW = ["BADARMOR", "GOODMDC", "TRUST_ULTIMATE", "DECRYPTION_OKAY", "GOT_IT", "KEYREVOKED", "RSA_OR_IDEA", "Z"]
+ARGLESS_KW = ["BADARMOR", "GOODMDC", "TRUST_ULTIMATE", "DECRYPTION_OKAY", "GOT_IT", "KEYREVOKED", "RSA_OR_IDEA", "KEY_CONSIDERED", "PROGRESS"]
 NOISE = ["gpgv: Signature made Thu May  1 06:32:46 2008 UTC", "gpgv:                using DSA key D14219877A786561",
          "", "gpgv: Good signature from \"John\"", "GOODSIG A B", "[GNUPG:]", " [GNUPG:] GOODSIG A B", "[gnupg:] VALIDSIG a",
          "x[GNUPG:] GOODSIG A B", "[GNUPG:]\tVALIDSIG a", "[GNUPG:]GOODSIG A B", "#", "[GNUPG: ] GOODSIG A B"]
